@@ -413,7 +413,8 @@ def run(ck):
             body = inner[2][0][2]
             is_trim = (body[0] == "app" and body[1] == trim.qualname) or (body[0] == "mcall" and body[2] == "trim")
             return is_trim and not (body[3] if body[0] == "mcall" else dict(body[3])), inner[2][1]
-        if inner[0] == "comp" and len(inner[3]) == 1 and not inner[3][0][1]:
+        if inner[0] == "comp" and len(inner[3]) == 1:
+            # (a filter on the comprehension selects queries - C10's business; every query that is kept is trimmed)
             body = inner[2]
             is_trim = (body[0] == "app" and body[1] == trim.qualname) or (body[0] == "mcall" and body[2] == "trim")
             return is_trim, inner[3][0][0]
